@@ -191,6 +191,9 @@ structure BadText where
   /-- variables the text reads without declaring them (only expression texts: `bloc_parse_expression` cannot
   declare anything): the error `code` is the one reported when each of them is registered with exactly this type -/
   needSyms : List (String × Ty) := []
+  /-- the LEFT operand alone is ill-typed: its check throws before the right operand is parsed, so only the first
+  of `needSyms` (the left operand's variable) is ever looked up -/
+  leftFirst : Bool := false
   deriving Repr, Inhabited
 
 /-- Texts `bloc_parse_executable` rejects, with the error code it reports and the position it
@@ -225,7 +228,7 @@ def handBadProgs : List BadText := [
   { src := "q9 = g9(1);", code := Gen.EXC_PARSE_UNDEFINED_SYMBOL_S, col := 6 },
   -- the two below also LEAK on the pinned tree (known findings C15.leak_*): kept at the end so that
   -- the generator can address the leak-free prefix separately
-  { src := "q9 = \"abc\" - 1;", code := Gen.EXC_PARSE_TYPE_MISMATCH_S, col := 15 },
+  { src := "q9 = \"abc\" - 1;", code := Gen.EXC_PARSE_TYPE_MISMATCH_S, col := 14 },
   { src := "if true then q9 = 1;", code := Gen.EXC_PARSE_EOF, newSyms := [("Q9", Ty.int)] } ]
 
 /-- Texts `bloc_parse_expression` rejects (it needs a terminating newline or `;` after the
@@ -391,11 +394,31 @@ def endPos (src : String) : Nat × Nat :=
   let pre := src.toList.dropLast
   (1 + (pre.filter (· == '\n')).length, 1 + (pre.reverse.takeWhile (· != '\n')).length)
 
+/-- (line, column) of the character of a text that has `n` characters behind it (`endPos src = posBack src 0`). -/
+def posBack (src : String) (n : Nat) : Nat × Nat :=
+  let pre := src.toList.take (src.toList.length - 1 - n)
+  (1 + (pre.filter (· == '\n')).length, 1 + (pre.reverse.takeWhile (· != '\n')).length)
+
+/-- Offset, inside an operand text, of the character its FIRST token is positioned at: the first character, except for
+a string literal, which the parser assembles from the scanner's begin / text / end pieces and stamps with the position
+of the closing quote (parser.cpp, `case TOKEN_LITERALEND: t = new Token(TOKEN_LITERALSTR, …, _position.lno, _position.pno)`). -/
+def firstTokOff (r : String) : Nat :=
+  match r.toList with
+  | '"' :: rest => 1 + (rest.takeWhile (· != '"')).length
+  | _ => 0
+
+/-- Where the type error of `q9 = L op R;` is reported (`p.front()` when `assertType` throws). The operators that check
+their left operand on its own (`assertType(result, T, …, false)`: all but `+`, the relations and the unary ones) check it
+BEFORE the right operand is parsed: a left operand that is ill-typed on its own is reported at the first token of the
+right operand (`firstTokOff`); every other type error after the right operand, at the final `;`. -/
+def OpCase.errPos (oc : OpCase) : Nat × Nat :=
+  if oc.leftBad then posBack oc.progSrc ((atom oc.form oc.tr).1.length - firstTokOff (atom oc.form oc.tr).1) else endPos oc.progSrc
+
 def OpCase.badExpr (oc : OpCase) : BadText :=
-  { src := oc.exprSrc, code := Gen.EXC_PARSE_TYPE_MISMATCH_S, needSyms := oc.vars }
+  { src := oc.exprSrc, code := Gen.EXC_PARSE_TYPE_MISMATCH_S, needSyms := oc.vars, leftFirst := oc.leftBad }
 
 def OpCase.badProg (oc : OpCase) : BadText :=
-  { src := oc.progSrc, code := Gen.EXC_PARSE_TYPE_MISMATCH_S, line := (endPos oc.progSrc).1, col := (endPos oc.progSrc).2,
+  { src := oc.progSrc, code := Gen.EXC_PARSE_TYPE_MISMATCH_S, line := oc.errPos.1, col := oc.errPos.2,
     newSyms := if oc.form == .var then opVars else [] }
 
 /-- All operator cases: every binary spelling × form × (left type, right type), every unary spelling × form × type. -/
@@ -442,14 +465,20 @@ def opProgText (i : Nat) : Option ProgText :=
 
 def symTyOf (x : Ctx) (n : String) : Option Ty := (x.syms.find? (·.name == n)).map (·.ty)
 
-/-- The error a rejected expression text raises in context `x`: a variable it reads that is not registered is
-reported first (`VariableExpression::parse`, while the operands are parsed: before any operand type is checked);
-with every variable registered at the type the entry was generated for it is the entry's code; with a variable
-of another type the verdict is not this entry's (`none`: unmodelled). -/
+/-- The variables of a rejected expression text are looked up in the order the parser meets them: one that is not
+registered ends the parse with `EXC_PARSE_UNDEFINED_SYMBOL_S` (`VariableExpression::parse`); one registered at another
+type than the entry was generated for makes the verdict not this entry's (`none`: unmodelled); when all are as
+generated the entry's code is raised. -/
+def needWalk (x : Ctx) (code : Nat) : List (String × Ty) → Option Nat
+  | [] => some code
+  | p :: ps => match symTyOf x p.1 with
+    | none => some Gen.EXC_PARSE_UNDEFINED_SYMBOL_S
+    | some t => if t == p.2 then needWalk x code ps else none
+
+/-- The error a rejected expression text raises in context `x`. With `leftFirst` the check of the left operand throws
+before the right operand is parsed: only the left operand's variable is looked up. -/
 def BadText.codeIn (bt : BadText) (x : Ctx) : Option Nat :=
-  if bt.needSyms.any (fun p => (symTyOf x p.1).isNone) then some Gen.EXC_PARSE_UNDEFINED_SYMBOL_S
-  else if bt.needSyms.all (fun p => symTyOf x p.1 == some p.2) then some bt.code
-  else none
+  needWalk x bt.code (if bt.leftFirst then bt.needSyms.take 1 else bt.needSyms)
 
 /-! ## operations and results -/
 
